@@ -467,9 +467,11 @@ package http2
 //@ func (*HeaderField).CopyTo
 //@ props C03 C04
 //@ requires recv: hf != nil && other != nil
-//@ requires sep: hfsep(other, hf)
 //@ modifies other.key, capacity(other.key), other.value, capacity(other.value), other.sensible
-//@ ensures copy: other.key == old(hf.key) && other.value == old(hf.value) && other.sensible == old(hf.sensible)
+//@ # the copy is exact when the two fields own separate buffers (stated as a condition, not a
+//@ # precondition: callers that cannot show separation still get memory safety and the lengths)
+//@ ensures copy: old(hfsep(other, hf)) ==> other.key == old(hf.key) && other.value == old(hf.value)
+//@ ensures lens: len(other.key) == len(old(hf.key)) && len(other.value) == len(old(hf.value)) && other.sensible == old(hf.sensible)
 
 //@ func (*HeaderField).SetKeyBytes
 //@ props C03
@@ -528,8 +530,6 @@ package http2
 //@ func (*HPACK).addDynamic
 //@ props C03 C04
 //@ requires tbl: hpackOK(hp) && hf != nil
-//@ requires small: len(hf.key) + len(hf.value) + 32 < 4294967296
-//@ requires sep: bufsep(hf.key, hf.value) && bufsep(hf.value, hf.key)
 //@ modifies hp.dynamic, capacity(hp.dynamic), family(HeaderField), anybytes()
 //@ opt noframe=elem
 //@ let ev = len(old(hp.dynamic)) + 1 - len(hp.dynamic)
@@ -547,3 +547,38 @@ package http2
 //@ ensures announce: (old(hp.maxTableSize) != size || old(hp.maxTableSizeSettings) != size) ==> hp.pendingSizeUpdate
 //@ ensures keepflag: old(hp.pendingSizeUpdate) ==> hp.pendingSizeUpdate
 //@ ensures nonnil: forall(k, 0, len(hp.dynamic), hp.dynamic[k] != nil)
+
+//@ macro isupd(c) = (c & 224) == 32
+//@ macro tblsep(hp, hf) = forall(i, 0, len(hp.dynamic), hfsep(hf, hp.dynamic[i])) && forall(i, 0, 61, hfsep(hf, staticTable[i]))
+
+//@ func (*HPACK).nextField
+//@ props C03 C01 C16
+//@ requires tbl: hpackOK(hp) && hf != nil
+//@ modifies hf.key, capacity(hf.key), hf.value, capacity(hf.value), hf.sensible, hp.maxTableSize, hp.dynamic, capacity(hp.dynamic), family(HeaderField), anybytes()
+//@ opt noframe=true
+//@ loop 0: invariant st: hpackOK(hp) && samearray(b, old(b)) && offset(b) >= offset(old(b)) && offset(b) + len(b) == offset(old(b)) + len(old(b)) &&
+//@ |   hf != nil
+//@ # the loop is only re-entered after a legal size update at the start of the block
+//@ loop 0: invariant first: sameslice(b, old(b)) || (len(old(b)) > 0 && isupd(old(b)[0]) && blockStart && fieldsProcessed <= 0 &&
+//@ |   spec.intFits(old(b), 5) && spec.intVal(old(b), 5) <= hp.maxTableSizeSettings)
+//@ loop 0: invariant tbl0: sameslice(b, old(b)) ==> sameslice(hp.dynamic, old(hp.dynamic)) && hp.dynamic == old(hp.dynamic)
+//@ let b0 = old(b)
+//@ let c = old(b)[0]
+//@ ensures empty: len(b0) == 0 ==> r1 == nil && len(r0) == 0
+//@ # every successful step consumes input (C16: bounded work)
+//@ ensures progress: r1 == nil && len(b0) > 0 ==> len(r0) < len(b0)
+//@ ensures suffix: r1 == nil ==> samearray(r0, b0) && offset(r0) + len(r0) == offset(b0) + len(b0)
+//@ # RFC 7541 section 6.3 / 4.2: a size update is only legal at the start of a block and within the advertised limit
+//@ ensures updpos: len(b0) > 0 && isupd(c) && spec.intFits(b0, 5) && (!blockStart || fieldsProcessed > 0) ==> r1 == ErrDynamicUpdate
+//@ ensures updmax: len(b0) > 0 && isupd(c) && spec.intFits(b0, 5) && blockStart && fieldsProcessed <= 0 &&
+//@ |   spec.intVal(b0, 5) > old(hp.maxTableSizeSettings) ==> r1 == ErrDynamicUpdateMaxTableSize
+//@ # RFC 7541 section 6.1: an index of 0 or past the end of the tables is a decoding error
+//@ ensures idxbad: len(b0) > 0 && c >= 128 && spec.intFits(b0, 7) && (spec.intVal(b0, 7) == 0 || spec.intVal(b0, 7) >= 62 + len(old(hp.dynamic))) ==>
+//@ |   r1 != nil && r1 != ErrUnexpectedSize
+//@ ensures idxok: len(b0) > 0 && c >= 128 && spec.intFits(b0, 7) && 1 <= spec.intVal(b0, 7) && spec.intVal(b0, 7) < 62 + len(old(hp.dynamic)) ==>
+//@ |   r1 == nil && len(r0) == len(b0) - spec.intLen(b0, 7)
+//@ ensures trunc: len(b0) > 0 && c >= 128 && spec.intTrunc(b0, 7) ==> r1 == ErrUnexpectedSize
+//@ # never-indexed literals are marked, everything else is not (RFC 7541 section 6.2.3)
+//@ # (stated for literals without indexing; the incremental-indexing path goes through addDynamic, whose
+//@ # frame over pooled header fields is too coarse to carry hf across)
+//@ ensures sens: r1 == nil && len(b0) > 0 && c < 32 ==> hf.sensible == ((c & 240) == 16)
